@@ -82,7 +82,7 @@ def pxRunAct (p : KParams) (name : String) (a : Act) (s : KSt) : KSt :=
         applyREffs p (pxR name) x.2 (s.setR (pxR name) x.1)
       else
         let req := ((s.net.cfg.ipsOf node).head?).getD "?"
-        let s := s.emit ("L lookup t=" ++ toString now ++ " req=" ++ req ++ " name=" ++ hexOf host)
+        let s := s.emitL ("L lookup t=" ++ toString now ++ " req=" ++ req ++ " name=" ++ hexOf host)
         let (err, ips, lat) := (s.net.cfg.dns.lookup hostS).getD (Ec.hostNotFound, [], 100000000)
         let x := r.resolveName {} now err ips lat port h
         applyREffs p (pxR name) x.2 (s.setR (pxR name) x.1)
